@@ -136,6 +136,7 @@ CONSTANTS
  MaxLost = %(lost)d
  MaxFailA = %(failA)d
  MaxFailB = %(failB)d
+ MaxOrd = %(ord)d
 VIEW sview
 %(ac)s
 INVARIANTS TypeOK %(inv)s
@@ -152,7 +153,7 @@ def _stream_body(clients, topics, fixes, dump):
 
 
 def _bounds(b):
-    d = {"batch": 100, "lru": 100, "emit": 2, "msg": 1, "brk": 1, "lost": 1, "failA": 0, "failB": 0}
+    d = {"batch": 100, "lru": 100, "emit": 2, "msg": 1, "brk": 1, "lost": 1, "failA": 0, "failB": 0, "ord": 1}
     d.update(b)
     return d
 
